@@ -17,12 +17,13 @@ from . import common
 from . import lib_lockgate as G
 from .common import parallel_map
 
-RULE = ("a case = (configuration: 2-5 processes with kind shared/exclusive, optional EUPS_LOCK_PID parent, ntry, "
+RULE = ("a case = (configuration: 2-5 processes with kind shared/exclusive, optional EUPS_LOCK_PID parent, ntry, login name "
+        "(dotted, dashed, numeric, ... or the real one; differing between processes), "
         "release by giveLocks or only at exit, default or absolute lockDirectoryBase; schedule: list of process "
         "indices, each entry releases one file-system call of that real process); sources: corpus witnesses, the "
         "transition cover of the model's reachable state graph for every 2-process configuration (all distinct "
         "interleavings up to model-state identity), random 3-4-process schedules with bursts, phase-atomic orders of "
-        "complete acquisitions/releases; non-trivial = at least two processes were between their first call and "
+        "complete acquisitions/releases, several stacks, real command lines with -Z/-z before/after the command word; non-trivial = at least two processes were between their first call and "
         "their last at the same time, or a request was refused/failed; distinct = distinct (configuration, executed "
         "schedule)")
 TRUSTED = ["the step gate serialises the file-system calls of the lockers: one call = one atomic step (true parallelism "
@@ -44,8 +45,20 @@ CORPUS = os.path.join(common.VERIF, "corpus", "C09")
 WORKERS = 6
 
 
-def P(kind, lp=None, tries=0, explicit=True):
-    return {"kind": kind, "lp": lp, "tries": tries, "explicit": explicit}
+def P(kind, lp=None, tries=0, explicit=True, user=None):
+    p = {"kind": kind, "lp": lp, "tries": tries, "explicit": explicit}
+    if user is not None:
+        p["user"] = user          # login name the locker runs under (part of its lock file's name); None: the real one
+    return p
+
+
+# login names: lock files are called <kind>-<name>.<pid> and are recognised by parsing that back, so names with dots,
+# dashes, digits, a numeric last component, an underscore, a blank must all work — and differ from process to process
+USERS = ["jane.doe", "svc-build", "u1234", "7up", "a.b-c.9", "dr.who.2", "x_y", "exclusive-me", "o neil", "shared"]
+
+
+def pick_user(rng):
+    return rng.choice(USERS) if rng.random() < 0.6 else None
 
 
 # ---- implementation -----------------------------------------------------------------------------
@@ -85,9 +98,10 @@ def model_req(case, executed):
         return {"m": "c09", "op": "runpath", "sched": executed, "ndirs": case.get("ndirs", 1),
                 "procs": [{"kind": (p["kind"] if p["kind"] != "N" else "S"), "lp": p.get("lp"), "tries": p.get("tries", 0),
                            "path": (p.get("path", [0]) if p["kind"] != "N" else []),
-                           "explicit": p.get("explicit", True)} for p in case["procs"]]}
+                           "explicit": p.get("explicit", True), "user": p.get("user")} for p in case["procs"]]}
     return {"m": "c09", "op": "run", "sched": executed,
-            "procs": [{"kind": p["kind"], "lp": p.get("lp"), "tries": p.get("tries", 0)} for p in case["procs"]]}
+            "procs": [{"kind": p["kind"], "lp": p.get("lp"), "tries": p.get("tries", 0), "user": p.get("user")}
+                      for p in case["procs"]]}
 
 
 def model_view(ans):
@@ -119,7 +133,43 @@ def lifetimes_overlap(r, n):
 # lock type per command line, transcribed from the `register(...)` calls of cmd.py and from setupcmd.py:
 # (kind, released by the command's own giveLocks).  The admin/distrib sub-commands take their locks in
 # AdminCmd.execute / DistribCmd.execute, which discard the list: released by the exit handler only.
+STACK_OPTS = ("-Z", "--database", "--with-eups", "-z", "--select-db")
+
+
+def cmd_words(argv):
+    """the command line without its stack options"""
+    out, j = [], 0
+    while j < len(argv):
+        if argv[j] in STACK_OPTS:
+            j += 2
+        else:
+            out.append(argv[j])
+            j += 1
+    return out
+
+
+def expected_stacks(argv, env_path):
+    """Which stacks the command line works on, hence must lock (Eups.setEupsPath as the documentation of -Z/-z has it):
+    -Z LIST, anywhere on the line — before or after the command word —, replaces $EUPS_PATH (the last one wins);
+    -z DIR keeps the elements with a path component DIR; duplicates are dropped.  Stacks are written $S<i> in LIST."""
+    z = dbz = None
+    for j, a in enumerate(argv[:-1]):
+        if a in ("-Z", "--database", "--with-eups"):
+            z = argv[j + 1]
+        elif a in ("-z", "--select-db"):
+            dbz = argv[j + 1]
+    stacks = [int(x[2:]) for x in z.split(":")] if z is not None else list(env_path)
+    if dbz is not None:
+        stacks = [d for d in stacks if "stack%d" % d == dbz]
+    out = []
+    for d in stacks:
+        if d not in out:
+            out.append(d)
+    return out
+
+
 def cmd_spec(argv):
+    argv = cmd_words(argv)
     if "--nolocks" in argv or "-h" in argv or (argv[0] == "setup" and "-N" in argv):
         return "N", True
     table = {"list": ("S", True), "tags": ("S", True), "uses": ("S", True), "declare": ("E", True), "undeclare": ("E", True),
@@ -138,18 +188,50 @@ COMMANDS = [["list"], ["tags"], ["uses", "foo"], ["declare", "prod%d", "1.0", "-
             ["admin", "listLocks"]]
 
 
-def cmd_proc(i, argv, path):
+def cmd_proc(i, argv, env_path, user=None):
+    """env_path: the stacks on the command's $EUPS_PATH; `path` = the stacks it must lock (model and oracle)"""
     argv = [a % i if "%d" in a else a for a in argv]
     kind, explicit = cmd_spec(argv)
-    pr = P(kind, explicit=explicit, tries=9)         # the command line never passes ntry: default 10 attempts
+    pr = P(kind, explicit=explicit, tries=9, user=user)         # the command line never passes ntry: default 10 attempts
     pr["argv"] = argv
-    pr["path"] = path
+    pr["env_path"] = list(env_path)
+    pr["path"] = expected_stacks(argv, env_path)
     return pr
+
+
+def with_stack_option(argv, opt, value, before):
+    """put `opt value` before the command word or at the end of the line (setup: always after the tool's name)"""
+    if before and argv[0] != "setup":
+        return [opt, value] + list(argv)
+    if before:
+        return [argv[0], opt, value] + list(argv[1:])
+    return list(argv) + [opt, value]
+
+
+def stack_option_cases():
+    """which stacks a command locks: -Z / -z before and after the command word, naming a stack on or off $EUPS_PATH,
+    for updating and reading commands; then an updater against a reader on a stack that is not on $EUPS_PATH"""
+    cases = []
+    cmds = [COMMANDS[3], ["undeclare", "prod%d", "1.0"], ["list"], ["tags"], ["setup", "foo"], ["admin", "buildCache"],
+            ["admin", "listCache"]]
+    variants = [([0, 1], "-Z", "$S2"), ([0, 1], "-Z", "$S1"), ([0, 1], "-z", "stack1"), ([0], "--database", "$S1:$S2"),
+                ([0, 1, 2], "--select-db", "stack2"), ([1], "-Z", "$S0:$S2:$S0")]
+    for argv in cmds:
+        for env_path, opt, val in variants:
+            for before in (False, True):
+                cases.append({"procs": [cmd_proc(0, with_stack_option(argv, opt, val, before), env_path)],
+                              "sched": [], "ndirs": 3, "src": "cmdstack"})
+    # a reader holds stack 2 (not on anybody's $EUPS_PATH); `declare ... -Z $S2` must wait for it and is refused
+    for before in (False, True):
+        cases.append({"procs": [cmd_proc(0, ["list", "-Z", "$S2"], [0, 1]),
+                                cmd_proc(1, with_stack_option(COMMANDS[3], "-Z", "$S2", before), [0, 1])],
+                      "sched": [0, 0, 0] + [1] * 34 + [0] * 6, "ndirs": 3, "src": "cmdstack"})
+    return cases
 
 
 def cmd_cases(rng, nrandom):
     """real command lines through cmd.py / setupcmd.py: each alone on one and two stacks, then contended pairs/triples"""
-    cases = []
+    cases = stack_option_cases()
     for argv in COMMANDS:
         for nd in (1, 2):
             cases.append({"procs": [cmd_proc(0, argv, list(range(nd)))], "sched": [], "ndirs": nd, "src": "cmd1"})
@@ -166,7 +248,11 @@ def cmd_cases(rng, nrandom):
         for i in range(n):
             argv = rng.choice(COMMANDS)
             path = list(range(nd)) if rng.random() < 0.7 else [rng.randrange(nd)]
-            procs.append(cmd_proc(i, argv, path))
+            if rng.random() < 0.35:
+                opt, val = rng.choice([("-Z", "$S%d" % rng.randrange(nd)), ("-z", "stack%d" % rng.randrange(nd)),
+                                       ("-Z", ":".join("$S%d" % d for d in rng.sample(range(nd), nd)))])
+                argv = with_stack_option(argv, opt, val, rng.random() < 0.5)
+            procs.append(cmd_proc(i, argv, path, user=pick_user(rng)))
         L = rng.randint(8, 16) * n
         sched = []
         while len(sched) < L:
@@ -227,6 +313,13 @@ def oracle(case, r):
         held = (r.get("held") or [None] * n)[i]
         if held is None:
             continue        # never reached its body
+        # an updater holds an exclusive lock on the stack it updates: where did its declaration land?
+        w = cmd_words(sp["argv"])
+        if w[0] == "declare" and len(w) > 2 and r.get("products"):
+            for d, prods in enumerate(r["products"]):
+                if w[1] in prods and not (d in held and kinds[held.index(d)] == "E"):
+                    yield ("updated_stack_locked", None, "%r declared %s in stack %d while holding %r on stacks %r" % (
+                        sp["argv"], w[1], d, kinds, held))
         want = sp["kind"]
         if want == "N":
             if held or any(t[0] == i and t[1] not in ("work", "-") for t in r["trace"]):
@@ -334,7 +427,7 @@ def random_case(rng, n):
             lp = rng.choice(roots)          # EUPS_LOCK_PID always names a process that started without it (never overwritten)
         elif rng.random() < 0.04:
             lp = n + 1                      # stale EUPS_LOCK_PID: the ancestor is not among the lockers
-        procs.append(P(k, lp=lp, tries=rng.choice([0, 0, 0, 1, 2]), explicit=rng.random() < 0.85))
+        procs.append(P(k, lp=lp, tries=rng.choice([0, 0, 0, 1, 2]), explicit=rng.random() < 0.85, user=pick_user(rng)))
     L = rng.randint(8, 16) * n
     sched = []
     if rng.random() < 0.6:
@@ -360,7 +453,7 @@ def path_case(rng):
         path = rng.sample(range(nd), rng.randint(1, nd))
         if rng.random() < 0.5:
             path.sort()
-        pr = P(k, lp=lp, tries=rng.choice([0, 0, 1]), explicit=rng.random() < 0.8)
+        pr = P(k, lp=lp, tries=rng.choice([0, 0, 1]), explicit=rng.random() < 0.8, user=pick_user(rng))
         pr["path"] = path
         procs.append(pr)
     L = rng.randint(10, 20) * n
@@ -383,6 +476,22 @@ def path_case(rng):
     return c
 
 
+def name_cases():
+    """every login name of USERS on a phase-atomic order that needs the holder's file to be recognised: an exclusive
+    holder keeps an unrelated reader out and lets its own children (under yet other names) re-enter"""
+    cases = []
+    for k, u in enumerate(USERS):
+        v, w = USERS[(k + 1) % len(USERS)], USERS[(k + 3) % len(USERS)]
+        procs = [P("E", user=u), P("S", user=v), P("E", lp=0, user=w), P("S", lp=0, user=u), P("S", user=None)]
+        phases = [["acq", 0], ["acq", 1], ["acq", 2], ["rel", 2], ["acq", 3], ["acq", 4], ["rel", 3], ["rel", 0]]
+        cases.append({"procs": procs, "phases": phases, "sched": [], "src": "names"})
+        # a shared holder under that name keeps an unrelated updater out and lets another reader in
+        procs = [P("S", user=u), P("E", user=v, tries=1), P("S", user=w), P("E", lp=0, user=v)]
+        phases = [["acq", 0], ["acq", 1], ["acq", 2], ["rel", 2], ["acq", 3], ["rel", 3], ["acq", 1], ["rel", 0]]
+        cases.append({"procs": procs, "phases": phases, "sched": [], "src": "names"})
+    return cases
+
+
 def phase_case(rng):
     n = rng.randint(2, 5)
     procs = []
@@ -390,7 +499,7 @@ def phase_case(rng):
         k = "E" if rng.random() < 0.45 else "S"
         roots = [j for j in range(i) if procs[j]["lp"] is None]
         lp = rng.choice(roots) if (roots and rng.random() < 0.35) else None
-        procs.append(P(k, lp=lp, tries=rng.choice([0, 0, 1]), explicit=rng.random() < 0.85))
+        procs.append(P(k, lp=lp, tries=rng.choice([0, 0, 1]), explicit=rng.random() < 0.85, user=pick_user(rng)))
     phases, started, released = [], set(), set()
     for _ in range(rng.randint(n, 2 * n)):
         cand = [("acq", i) for i in range(n) if i not in started] + \
@@ -429,12 +538,26 @@ def evaluate(ctx, cases):
         ctx.hist("kinds=" + "".join(sorted(p["kind"] for p in c["procs"])))
         for p in c["procs"]:
             if p.get("argv") is not None:
-                ctx.hist("cmd=" + " ".join(p["argv"][:2] if p["argv"][0] == "admin" else p["argv"][:1]) +
-                         ("" if p["kind"] != "N" or p["argv"][0] in ("flavor", "path", "vro") or p["argv"][:2] == ["admin", "listLocks"] else " (no lock requested)"))
+                w = cmd_words(p["argv"])
+                ctx.hist("cmd=" + " ".join(w[:2] if w[0] == "admin" else w[:1]) +
+                         ("" if p["kind"] != "N" or w[0] in ("flavor", "path", "vro") or w[:2] == ["admin", "listLocks"] else " (no lock requested)"))
+                if w != p["argv"]:
+                    j = min(k for k, a in enumerate(p["argv"]) if a in STACK_OPTS)
+                    ctx.hist("stack_option=%s %s the command word, %s $EUPS_PATH" % (
+                        "-Z" if p["argv"][j] in ("-Z", "--database", "--with-eups") else "-z",
+                        "before" if (j == 0 or (w[0] == "setup" and j == 1)) else "after",
+                        "within" if set(p["path"]) <= set(p["env_path"]) else "off"))
         if any(p.get("lp") is not None for p in c["procs"]):
             ctx.hist("with_parent_child")
         if any(p.get("tries") for p in c["procs"]):
             ctx.hist("with_retry")
+        names = {p.get("user") for p in c["procs"]}
+        if names != {None}:
+            ctx.hist("with_login_names")
+            if len(names) > 1:
+                ctx.hist("login_names_differ_between_processes")
+            for u in names - {None}:
+                ctx.hist("login_name=" + ("dotted" if "." in u else "dashed" if "-" in u else "other"))
         if c.get("base") == "abs":
             ctx.hist("lockDirectoryBase=absolute")
         if any(not p.get("explicit", True) for p in c["procs"]):
@@ -564,6 +687,7 @@ def run(ctx):
     cases = corpus_cases()
     ctx.hist("corpus", len(cases))
     evaluate(ctx, cases)
+    evaluate(ctx, name_cases())
     # all distinct interleavings of two processes (transition cover of the model's state graph)
     two = explore_cases(ctx, two_proc_configs(), "cover2")
     ctx.hist("cover2_schedules", len(two))
